@@ -549,7 +549,8 @@ fn wa_fields(t: &mut Trace, rng: &mut Rng, k: &P256Key, k2: &P256Key) {
         run_both(t, &s, &c);
     }
     // ---- the example contract's key_data / sig_data handling
-    for extra in [1usize, 16, 64, 400] {
+    // credential ids up to the WebAuthn maximum of 1023 bytes (and one beyond: the contract sets no bound of its own)
+    for extra in [1usize, 16, 64, 400, 958, 959, 1023, 1024, 4000] {
         let mut c = g.clone();
         c.key.extend(rand_bytes(rng, extra)); // credential id after the key
         run_wa(t, &s, "ex", &c, None);
